@@ -231,6 +231,31 @@ def check(prog, run):
     from .. import pairwrap
     pairwrap.check(prog, run, "W1", ["py_gql.validation", "py_gql.schema.schema"], 2)
 
+    # ---- I1 per-document state lives on the instance
+    ri = run.rule("I1", "no validation visitor class (TypeInfoVisitor, VariablesCollector, every registered rule and their bases in "
+                        "validation/**) keeps mutable state in a class attribute (set/dict/list literal or constructor call in the "
+                        "class body): such a container is shared by every validation in the process, so names left in it by an "
+                        "aborted or concurrent validation change the verdict of an unrelated document", 25)
+    vclasses = [c for c in prog.all_classes() if c.module.name.startswith("py_gql.validation")]
+    for c in vclasses:
+        ri.instance(c.name)
+        for an, av in c.attrs.items():
+            if an.startswith("__"):
+                continue
+            mutable = isinstance(av, (ast.Dict, ast.List, ast.Set, ast.ListComp, ast.DictComp, ast.SetComp)) or (
+                isinstance(av, ast.Call) and isinstance(av.func, ast.Name) and av.func.id in ("dict", "list", "set", "OrderedDict", "defaultdict", "deque"))
+            if not mutable:
+                continue
+            written = any(
+                (isinstance(n, ast.Call) and isinstance(n.func, ast.Attribute) and isinstance(n.func.value, ast.Attribute) and n.func.value.attr == an
+                 and n.func.attr in ("add", "append", "update", "clear", "pop", "setdefault", "extend", "discard", "remove"))
+                or (isinstance(n, ast.Subscript) and isinstance(n.ctx, ast.Store) and isinstance(n.value, ast.Attribute) and n.value.attr == an)
+                for k in [c] + prog.subclasses(c) for m in k.methods.values() for n in ast.walk(m.node))
+            if written:
+                run.report(ri, "%s:%s:class-level-state(%s)" % (c.module.name, c.name, an), c.module.relpath,
+                           "%s.%s is a mutable container created in the class body and written by the handlers: every %s instance in "
+                           "the process shares it" % (c.name, an, c.name))
+
     # ---- R4 per-usage records
     r = run.rule("R4", "variable usages checked by VariablesInAllowedPositionChecker come from a container that records every "
                        "usage (appended per occurrence), not from a mapping keyed by the variable name alone", 1)
